@@ -25,7 +25,7 @@ var R = hx.NewRecorder("C15", "cases = (endpoint kind: GMSSL client | GMSSL-only
 	"oracle = Handshake() returns (quiescence of the in-memory transport turns waiting into EOF; a read-after-EOF counter catches spinning), returns an error for every true deviation, HandshakeComplete stays false, no panic; legal variations (fragmented or coalesced messages, unknown ticket) must still succeed; non-trivial = deviation applied after at least one valid message or in the first message; distinct by hash of the plan")
 
 func TestMain(m *testing.M) {
-	R.Require("junk_certificate_verify", "jcv_vers:300", "ecdhe_ske", "hello_ext_sweep", "dev:big_record", "replay_deep:gmclient", "replay_deep:tlsclient", "replay_deep:gmserver", "replay_deep:tlsserver", "replay_deep:autoserver", "replay_control", "replay:omit_msg", "replay:hello_ext", "replay:swap_msgs", "hello_vector_lengths", "dev:cke_ciphertext_byte", "dev:cert_list", "fallback_scsv", "tls_scripted_server:control", "tls_scripted_server:version_above_offer", "tls_scripted_server:deviations", "short_messages_after_hello", "serverhello_version_sweep", "tls_resumption_deviation", "dev:inner_len", "dev:trailing", "dev:alert_flood", "inner_length_sweep", "peer_pressed_on_after_alert", "endpoint:gmclient", "endpoint:gmserver", "endpoint:autoserver", "endpoint:tlsserver", "endpoint:tlsclient", "vers_sweep_done", "dev:omit", "dev:repeat", "dev:retype", "dev:reorder", "dev:truncate", "dev:len_field", "dev:split", "dev:coalesce",
+	R.Require("junk_certificate_verify", "jcv_vers:300", "ecdhe_ske", "hello_ext_sweep", "dev:big_record", "replay_deep:gmclient", "replay_deep:tlsclient", "replay_deep:gmserver", "replay_deep:tlsserver", "replay_deep:autoserver", "replay_control", "replay:omit_msg", "replay:hello_ext", "replay:swap_msgs", "hello_vector_lengths", "dev:cke_ciphertext_byte", "dev:cert_list", "omitted_client_certificate", "fallback_scsv", "tls_scripted_server:control", "tls_scripted_server:version_above_offer", "tls_scripted_server:deviations", "short_messages_after_hello", "serverhello_version_sweep", "tls_resumption_deviation", "dev:inner_len", "dev:trailing", "dev:alert_flood", "inner_length_sweep", "peer_pressed_on_after_alert", "endpoint:gmclient", "endpoint:gmserver", "endpoint:autoserver", "endpoint:tlsserver", "endpoint:tlsclient", "vers_sweep_done", "dev:omit", "dev:repeat", "dev:retype", "dev:reorder", "dev:truncate", "dev:len_field", "dev:split", "dev:coalesce",
 		"dev:oversize", "dev:ccs_early", "dev:appdata_early", "dev:alert_fatal", "dev:unknown_record", "dev:close", "dev:record_overflow", "replay_perturbed", "legal_must_succeed", "cke_1byte", "hostile_suites")
 	for d := 0; d <= 5; d++ {
 		R.Require(fmt.Sprintf("depth:%d", d))
@@ -497,6 +497,54 @@ func fill32(seed uint64) []byte {
 	return b
 }
 
+// A server that asked for a certificate gets a Certificate message - empty if the client has none. A scripted client that
+// leaves the message out (and otherwise finishes a consistent handshake) must not be served, under any of the four
+// requesting policies, by the GMSSL-only or the auto-switch server.
+func TestC15_OmittedClientCertificate(t *testing.T) {
+	p := tlsx.GetPKI()
+	n := 0
+	for _, ep := range []string{"gmserver", "autoserver"} {
+		for _, auth := range []gmtls.ClientAuthType{gmtls.RequestClientCert, gmtls.RequireAnyClientCert, gmtls.VerifyClientCertIfGiven, gmtls.RequireAndVerifyClientCert} {
+			for _, withCert := range []bool{false, true} {
+				for _, kind := range []string{"omit", "control"} {
+					n++
+					seed := fmt.Sprint("occ", n)
+					sc := tlsx.GMServer(p, "s"+seed)
+					if ep == "autoserver" {
+						sc = tlsx.AutoServer(p, p.RSASrv, "s"+seed)
+					}
+					sc.ClientAuth, sc.ClientCAs = auth, p.RootsSM2
+					co := rgmssl.ClientOpts{Suites: []uint16{tlsx.GMECCSM4GCMSM3}}
+					if withCert {
+						co.Cert, co.CertD = p.Client.DER, p.Client.SM2D
+					}
+					var plan *rgmssl.Plan
+					if kind == "omit" {
+						plan = &rgmssl.Plan{Out: func(step string, o rgmssl.Out) []rgmssl.Out {
+							if step == "ClientCertificate" || step == "CertificateVerify" {
+								return nil
+							}
+							return []rgmssl.Out{o}
+						}}
+					}
+					r := tlsx.RunAgainstScriptedClient(sc, co, plan, seed, []byte("x"))
+					desc := fmt.Sprintf("%s, ClientAuth=%d, scripted client with certificate=%v, %s | endpoint: hs=%v | scripted peer: err=%v log=%v", ep, auth, withCert, kind, r.GM.HSErr, r.PeerErr, r.Peer.Log)
+					mustWork := kind == "control" && (withCert || auth == gmtls.RequestClientCert || auth == gmtls.VerifyClientCertIfGiven)
+					if kind == "omit" {
+						judge(t, r, false, true, desc)
+					} else {
+						judge(t, r, true, mustWork, desc)
+						if mustWork && r.GM.HSErr != nil {
+							t.Fatalf("honest scripted client refused (control)\n%s", desc)
+						}
+					}
+				}
+			}
+		}
+		R.Case(true, hx.HashKey("occ", ep), "omitted_client_certificate", "endpoint:"+ep)
+	}
+}
+
 var lastInnerFields int // number of inner length fields of the message the last "inner_len" deviation hit
 
 // every inner length field of every scripted GM/T 0024 handshake message x every candidate value, against the client and
@@ -721,11 +769,15 @@ func TestC15_ScriptedDeviations(t *testing.T) {
 			} else {
 				sc = tlsx.AutoServer(p, p.RSASrv, "s"+seed)
 			}
+			certless := false
 			if clientAuth {
-				sc.ClientAuth, sc.ClientCAs = gmtls.RequireAndVerifyClientCert, p.RootsSM2
+				// the certificate-requesting policies in turn; under the two that only ask, every third scripted client has no
+				// certificate and answers with the (mandatory) empty Certificate message
+				sc.ClientAuth, sc.ClientCAs = []gmtls.ClientAuthType{gmtls.RequireAndVerifyClientCert, gmtls.RequestClientCert, gmtls.VerifyClientCertIfGiven, gmtls.RequireAnyClientCert}[d.K%4], p.RootsSM2
+				certless = (sc.ClientAuth == gmtls.RequestClientCert || sc.ClientAuth == gmtls.VerifyClientCertIfGiven) && d.Kind != "big_record" && d.Kind != "cert_list" && d.Step != "CertificateVerify" && (d.K/4)%3 != 0
 			}
 			co := rgmssl.ClientOpts{Suites: []uint16{suite}}
-			if clientAuth {
+			if clientAuth && !certless {
 				co.Cert, co.CertD = p.Client.DER, p.Client.SM2D
 			}
 			for i := 0; i < bigCerts; i++ {
